@@ -6,6 +6,7 @@ import (
 	"fmt"
 	"sort"
 	"strings"
+	"time"
 
 	"verifengine/ex"
 	"verifengine/fixture"
@@ -23,9 +24,10 @@ func init() {
 			"(b) every atom and every single-operator expression over the 18-atom alphabet in each of ~100 use contexts (typed var, assignment, op-assignment, return, send, if/for/switch/case/range, const, expression statement, defer/go, 2-value define, argument); " +
 			"(c) depth-2 expressions over a reduced alphabet; (d) ~2.4k statement/declaration-rule programs generated from templates over 9 types (redeclaration by := from tuples/comma-ok forms, no-new-variable, tuple assignment, return count/type, range assignment, misplaced break/continue/fallthrough/goto, duplicate cases, value-less calls used as values, ...); (e) the C10 body space; each is built through the canonical front-end operation sequence into a fresh package; oracle: no error reported => every written file parses and go/types reports nothing but unused vars/imports. " +
 			"non-trivial = accepted by the builder; distinct = distinct emitted text",
-		Assumptions: []string{"go/types 1.23.5 is the Go specification for the oracle", "the environment package (fixture) is type-checked by go/types itself"},
-		Run:         run,
-		Replay:      replay,
+		Assumptions:    []string{"go/types 1.23.5 is the Go specification for the oracle", "the environment package (fixture) is type-checked by go/types itself"},
+		ThoroughBudget: 60 * time.Minute,
+		Run:            run,
+		Replay:         replay,
 	})
 }
 
